@@ -441,7 +441,13 @@ FMHistoryContract(e) ==
         badid == {p \in (1..n) \X (1..n) : p[2] < p[1] /\
                      ((e.obs[p[1]].same[p[2]] = 1) # (FM!Den(e.calls[p[1]]) = FM!Den(e.calls[p[2]])))}
         split == {p \in badid : FM!Den(e.calls[p[1]]) = FM!Den(e.calls[p[2]])}
-    IN  Verdict(Fl("accessors_read_back_what_was_built", badread = {}) \o
+        \* the derived accessors of a bit-vector constant: two's complement value and binary digits (most significant first)
+        SignedOf(v, w) == IF v >= Pow2(w - 1) THEN v - Pow2(w) ELSE v
+        BitsOf(v, w) == [j \in 1..w |-> (v \div Pow2(w - j)) % 2]
+        badacc == {i \in 1..n : LET t == e.obs[i].term IN
+                      t.op = "bv_constant" /\ t.n = "" /\ "sg" \in DOMAIN e.obs[i] /\
+                      (e.obs[i].sg # SignedOf(t.i[1], t.i[2]) \/ e.obs[i].bin # BitsOf(t.i[1], t.i[2]))}
+    IN  Verdict(Fl("accessors_read_back_what_was_built", badread = {} /\ badacc = {}) \o
                 Fl("same_structure_same_object", split = {}) \o
                 Fl("different_structure_different_object", badid \ split = {}), <<>>,
                 IF badread # {} THEN CHOOSE i \in badread : TRUE ELSE -1)
